@@ -205,3 +205,112 @@ func checkNoDeadShift(c *Ctx, rule string, pkgs []string) {
 		c.OK(rule, "no-shift-wider-than-operand", "", fmt.Sprintf("%d shifts examined, none shifts an 8/16-bit operand by its full width", n))
 	}
 }
+
+// checkLockPairing: every explicit Lock/RLock whose release is not deferred is released on every path
+// to a return of the same function (an early `return err` between Lock and Unlock leaks the lock and
+// blocks every later operation on the object).
+func checkLockPairing(c *Ctx, rule string, pkgs []string) {
+	inP := map[string]bool{}
+	for _, p := range pkgs {
+		inP[p] = true
+	}
+	var fns []*ssa.Function
+	for fn := range c.AllFuncs {
+		if inP[pkgOf(fn)] && len(fn.Blocks) > 0 {
+			fns = append(fns, fn)
+		}
+	}
+	sort.Slice(fns, func(i, j int) bool { return FuncName(fns[i]) < FuncName(fns[j]) })
+	n := 0
+	for _, fn := range fns {
+		ord := 0
+		allInstrs(fn, func(in ssa.Instruction) {
+			if _, isD := in.(*ssa.Defer); isD {
+				return
+			}
+			cls, mode, base, op, ok := lockOp(in)
+			if !ok || op != "lock" {
+				return
+			}
+			isRelease := func(x ssa.Instruction) bool {
+				c2, m2, b2, op2, ok2 := lockOp(x)
+				return ok2 && op2 == "unlock" && c2 == cls && m2 == mode && b2 == base
+			}
+			// a deferred release registered after the lock on every path, or reachable: accept when some
+			// defer of the matching unlock is reachable from the lock and dominates... keep it simple:
+			deferred := false
+			allInstrs(fn, func(x ssa.Instruction) {
+				if d, isD := x.(*ssa.Defer); isD && isRelease(d) && (instrDominates(in, d) || instrDominates(d, in)) {
+					deferred = true
+				}
+			})
+			n++
+			ord++
+			key := fmt.Sprintf("%s:%s#%d", FuncName(fn), shortType(cls), ord)
+			if deferred {
+				c.OK(rule, key, c.Pos(in.Pos()), "released by a deferred unlock")
+				return
+			}
+			r := reach(fn, in, nil, func(x ssa.Instruction) bool {
+				_, isD := x.(*ssa.Defer)
+				return !isD && isRelease(x)
+			})
+			leak := false
+			for _, ret := range returnsOf(fn) {
+				if r(ret) {
+					leak = true
+				}
+			}
+			if leak {
+				c.Bad(rule, key, c.Pos(in.Pos()), "the lock taken here is not released on every path to a return (an early return between Lock and Unlock): after that path every later operation on the object blocks, and the first one blocks while holding the manager lock")
+			} else {
+				c.OK(rule, key, c.Pos(in.Pos()), "released on every path to a return")
+			}
+		})
+	}
+	if n == 0 {
+		c.Bad(rule, "anchor:locks", "", "reason=anchor-missing: no lock acquisition found")
+	}
+}
+
+// checkNoNestedPublicCalls: a method of the manager never calls another lock-taking method of the
+// manager: before its own Lock that is a stale snapshot from another critical section, after it a
+// self-deadlock.
+func checkNoNestedPublicCalls(c *Ctx, rule string) {
+	takesLock := map[*ssa.Function]bool{}
+	var kmcFns []*ssa.Function
+	for fn := range c.AllFuncs {
+		if pkgOf(fn) != pkgKeystore || fn.Signature.Recv() == nil || !strings.HasSuffix(fn.Signature.Recv().Type().String(), "KeystoreManagerForPoC") {
+			continue
+		}
+		kmcFns = append(kmcFns, fn)
+		allInstrs(fn, func(in ssa.Instruction) {
+			if cls, _, _, op, ok := lockOp(in); ok && op == "lock" && cls == tKMC+".mu" {
+				takesLock[fn] = true
+			}
+		})
+	}
+	sort.Slice(kmcFns, func(i, j int) bool { return FuncName(kmcFns[i]) < FuncName(kmcFns[j]) })
+	var bad []string
+	n := 0
+	for _, fn := range kmcFns {
+		for _, g := range withClosures(fn) {
+			allInstrs(g, func(in ssa.Instruction) {
+				callee := staticCallee(in)
+				if callee == nil {
+					return
+				}
+				n++
+				if takesLock[callee] {
+					bad = append(bad, fn.Name()+" calls "+callee.Name()+" at "+c.Pos(in.Pos()))
+				}
+			})
+		}
+	}
+	sort.Strings(bad)
+	if len(bad) > 0 {
+		c.Bad(rule, "manager-methods-do-not-nest", "", strings.Join(bad, "; ")+": the value obtained belongs to another critical section (it can be stale when the caller takes the lock — a keystore chosen this way may have been deleted), or the call self-deadlocks")
+	} else {
+		c.OK(rule, "manager-methods-do-not-nest", "", fmt.Sprintf("%d calls from manager methods, none to a manager method that takes kmc.mu", n))
+	}
+}
